@@ -14,6 +14,7 @@ import (
 	"os"
 	"path/filepath"
 	"regexp"
+	"sort"
 	"strings"
 
 	"github.com/pdfcpu/pdfcpu/pkg/api"
@@ -200,17 +201,17 @@ func runSequence(t *vk.T, idx int, dir string, docs []string) {
 		// credentials
 		var u, o, cred string
 		switch c := rng.IntN(20); {
-		case c < 12 || !st.Enc:
+		case c < 10 || !st.Enc:
 			u, o, cred = st.UPW, st.OPW, "both-right"
-		case c < 14:
+		case c < 12:
 			u, o, cred = st.UPW, pw(), "owner-from-pool"
-		case c < 16:
+		case c < 14:
 			u, o, cred = pw(), st.OPW, "user-from-pool"
-		case c < 17:
+		case c < 16:
 			u, o, cred = st.UPW, "", "owner-empty"
-		case c < 18:
+		case c < 17:
 			u, o, cred = "", st.OPW, "user-empty"
-		case c < 19:
+		case c < 18:
 			u, o, cred = st.OPW, st.UPW, "swapped"
 		default:
 			u, o, cred = randPW(rng), randPW(rng), "both-fresh"
@@ -232,7 +233,7 @@ func runSequence(t *vk.T, idx int, dir string, docs []string) {
 				nu = ""
 			case 1:
 				no = ""
-			case 2:
+			case 2, 3:
 				no = nu
 			}
 			perm := randPerm(rng)
@@ -297,12 +298,12 @@ func runSequence(t *vk.T, idx int, dir string, docs []string) {
 		}
 		s.WantOK, s.Got = want, errClass(err)
 		h.Steps = append(h.Steps, s)
-		algName := st.Alg.Name
+		algName := revGroup(st.Enc, st.Alg)
 		if op == "encrypt" {
-			algName = s.Alg
-		}
-		if !st.Enc && op != "encrypt" {
-			algName = "none"
+			algName = "new:" + revGroup(true, next.Alg)
+			if st.Enc {
+				algName = "already-encrypted"
+			}
 		}
 		t.Eval(fmt.Sprintf("%d/%d|%s|%s|%s|%v", idx, k, op, algName, cred, want))
 		t.Count("steps/"+op+"/"+ifs(want, "model-ok", "model-fail"), 1)
@@ -310,10 +311,10 @@ func runSequence(t *vk.T, idx int, dir string, docs []string) {
 		after, _ := os.ReadFile(file)
 		switch {
 		case want && err != nil:
-			t.Violate(fmt.Sprintf("step/op=%s/alg=%s/cred=%s/want=ok/got=%s", op, algName, cred, s.Got), fmt.Sprintf("model predicts success: %v", err), h)
+			t.Violate(fmt.Sprintf("step/op=%s/rev=%s/cred=%s/want=ok/got=%s", op, algName, cred, s.Got), fmt.Sprintf("model predicts success: %v", err), h)
 			return
 		case !want && err == nil:
-			t.Violate(fmt.Sprintf("step/op=%s/alg=%s/cred=%s/want=fail/got=ok", op, algName, cred), "operation succeeded although the model (credentials/state) predicts failure", h)
+			t.Violate(fmt.Sprintf("step/op=%s/rev=%s/cred=%s/want=fail/got=ok", op, algName, cred), "operation succeeded although the model (credentials/state) predicts failure", h)
 			return
 		case !want && !bytes.Equal(before, after):
 			t.Violate(fmt.Sprintf("step/op=%s/failed-but-file-changed", op), "the operation failed but the file is not byte-identical to before", h)
@@ -327,7 +328,7 @@ func runSequence(t *vk.T, idx int, dir string, docs []string) {
 			var p *int16
 			e := safely(func() error { var e error; p, e = api.GetPermissionsFile(file, st.Alg.conf(st.UPW, st.OPW)); return e })
 			if e != nil || p == nil || uint16(*p) != uint16(st.Perm) {
-				t.Violate(fmt.Sprintf("after/op=%s/alg=%s/permissions-not-in-effect", op, st.Alg.Name), fmt.Sprintf("GetPermissionsFile: %v %v, model %04X", p, e, uint16(st.Perm)), h)
+				t.Violate(fmt.Sprintf("after/op=%s/rev=%s/permissions-not-in-effect", op, revGroup(true, st.Alg)), fmt.Sprintf("GetPermissionsFile: %v %v, model %04X", p, e, uint16(st.Perm)), h)
 				return
 			}
 		}
@@ -346,7 +347,13 @@ func runSequence(t *vk.T, idx int, dir string, docs []string) {
 				probes[st.OPW] = "current-owner"
 			}
 		}
-		for p, rel := range probes {
+		order := make([]string, 0, len(probes))
+		for p := range probes {
+			order = append(order, p)
+		}
+		sort.Strings(order)
+		for _, p := range order {
+			rel := probes[p]
 			if p == "" {
 				rel = "empty(" + rel + ")"
 			}
@@ -359,13 +366,10 @@ func runSequence(t *vk.T, idx int, dir string, docs []string) {
 				ctx, err := open(file, pu, po)
 				t.Eval("")
 				t.Count("probes/"+ifs(want, "must-open", "must-reject"), 1)
-				alg := "none"
-				if st.Enc {
-					alg = st.Alg.Name
-				}
+				alg := revGroup(st.Enc, st.Alg)
 				hh := h
 				hh.Probe = fmt.Sprintf("after step %d: password %q (%s) as %s password: %s", k, p, rel, slot, errClass(err))
-				key := fmt.Sprintf("probe/alg=%s/pw=%s/slot=%s", alg, rel, slot)
+				key := fmt.Sprintf("probe/rev=%s/pw=%s/slot=%s", alg, rel, slot)
 				switch {
 				case want && err != nil:
 					t.Violate(key+"/want=open/got="+errClass(err), hh.Probe+": "+err.Error(), hh)
@@ -386,6 +390,17 @@ func runSequence(t *vk.T, idx int, dir string, docs []string) {
 	if idx < 3 {
 		t.Sample(h)
 	}
+}
+
+// revGroup names the password rules in force: revisions 2-4 (RC4-40/128, AES-128) or 5/6 (AES-256).
+func revGroup(enc bool, a algo) string {
+	switch {
+	case !enc:
+		return "none"
+	case a.KeyLen == 256:
+		return "R5-6"
+	}
+	return "R2-4"
 }
 
 func ifs(c bool, a, b string) string {
